@@ -286,7 +286,7 @@ func symbolic(symbols []pr.NamedString, value int) (string, bool) {
 // Implement the algorithm for `type: alphabetic`.
 func alphabetic(symbols []pr.NamedString, value int) (string, bool) {
 	L := len(symbols)
-	if L < 2 {
+	if L < 2 || value < 1 { // defined only over strictly positive values
 		return "", false
 	}
 	reversedParts := []string{}
